@@ -2,7 +2,7 @@
 
 import math
 import re
-from typing import Any
+from typing import Any, Optional
 
 from .._utils import is_iterable
 from ..lang import ast as _ast
@@ -167,21 +167,27 @@ def _scalar_node_from_value(
             and isinstance(input_type, ScalarType)
             and input_type not in SPECIFIED_SCALAR_TYPES
         ):
+            number = None  # type: Optional[_ast.Value]
             if _INT_RE.fullmatch(scalar_value):
                 int_value = int(scalar_value)
                 if MIN_INT < int_value < MAX_INT:
-                    return _ast.IntValue(value=scalar_value)
+                    number = _ast.IntValue(value=scalar_value)
                 else:
-                    return _ast.FloatValue(value=scalar_value)
-            try:
-                fl = float(scalar_value)
-            except ValueError:
-                pass
+                    number = _ast.FloatValue(value=scalar_value)
             else:
-                # Only when the number denotes the very same text: the literal
-                # must read back as the value it was printed from.
-                if math.isfinite(fl) and str(fl) == scalar_value:
-                    return _ast.FloatValue(value=scalar_value)
+                try:
+                    fl = float(scalar_value)
+                except ValueError:
+                    pass
+                else:
+                    # Only when the number denotes the very same text: the
+                    # literal must read back as the value it was printed from.
+                    if math.isfinite(fl) and str(fl) == scalar_value:
+                        number = _ast.FloatValue(value=scalar_value)
+            # ... and only for a scalar which takes number literals (a string
+            # only scalar such as RegexType rejects them).
+            if number is not None and _accepts_literal(input_type, number):
+                return number
 
         return _ast.StringValue(value=scalar_value)
 
@@ -216,6 +222,14 @@ def _scalar_node_from_value(
             )
 
     raise ValueError()
+
+
+def _accepts_literal(input_type: ScalarType, node: _ast.Value) -> bool:
+    try:
+        input_type.parse_literal(node)  # type: ignore
+    except Exception:
+        return False
+    return True
 
 
 def _custom_scalar_entry(
